@@ -77,7 +77,7 @@ pub fn run(opts: &Opts, rep: &Report) {
     let scratch = Report::new("C03", tier, opts.seed, "model_checking");
     let all: Vec<_> = cases(tier, opts.seed, &scratch).into_iter().filter(|c| c.expect_fail).collect();
     rep.add("failing_sessions_enumerated", all.len() as u64);
-    let threads = std::thread::available_parallelism().map(|n| n.get()).unwrap_or(8);
+    let threads = crate::common::n_threads();
     let alt_cap = if tier.is_thorough() { 260 } else { 24 };
     let mut done = 0usize;
     for chunk in all.chunks(128) {
